@@ -36,6 +36,8 @@ def all_cells():
     for a in EAGER:
         for v in ("", "res", "exc", "cb", "cbraise"):
             outs.append(f"eager:{a}:{v}")
+    # an eager (forced) retry followed by an ordinary failure of the next delivery
+    outs += ["eager:force_retry:thenfail", "eager:retry:thenfail", "eager:force_retry:thenfail2"]
     cells = []
     for o, N, pos, rec, store in itertools.product(outs, (0, 1, 3), ("first", "middle", "last"), (False, True), (False, True)):
         if pos == "middle" and N < 2:
@@ -115,6 +117,11 @@ def build_script(cell):
             # a rejected message, and a rescheduled job without a period, comes straight back at the same attempt
             st["then"] = {"do": "ok", "ret": "second-delivery"}
         steps.append(st)
+        if variant == "thenfail":
+            steps.append({"do": "raise", "exc": "RuntimeError", "msg": "after-forced"})
+        elif variant == "thenfail2":
+            steps.append(dict(st))  # forced once more
+            steps.append({"do": "raise", "exc": "RuntimeError", "msg": "after-forced-twice"})
     steps.append({"do": "ok", "ret": "after"})
     return {"by_attempt": steps}
 
